@@ -257,6 +257,17 @@ impl SimDisk {
         }
     }
 
+    /// The device was replaced (a new image was installed): keep the call log for traces, drop
+    /// the contents - a run that recovers hundreds of images must not keep them all in memory.
+    pub fn discard_contents(&self) {
+        let mut s = self.state.lock().unwrap();
+        s.cache = Vec::new();
+        s.durable = Vec::new();
+        s.unsynced = Vec::new();
+        s.capture = None;
+        s.dead = true;
+    }
+
     pub fn log(&self) -> Vec<DevEvent> {
         self.state.lock().unwrap().log.clone()
     }
@@ -685,6 +696,17 @@ impl CrashCapture {
             return out;
         }
         push(vec![Landing::Whole; n], "all-landed".into());
+        // with very many unsynced writes (a recovery pass retiring a thousand extents) only a
+        // spread of positions gets its own prefix / drop / only / torn variants
+        let positions: Vec<usize> = if n <= 48 {
+            (0..n).collect()
+        } else {
+            let mut v: Vec<usize> = (0..4).chain(n - 4..n).collect();
+            v.extend((1..24).map(|k| k * n / 24));
+            v.sort_unstable();
+            v.dedup();
+            v
+        };
         if n <= exhaustive_limit {
             for mask in 0u32..(1u32 << n) {
                 let l = (0..n)
@@ -699,13 +721,13 @@ impl CrashCapture {
                 push(l, format!("subset-{mask:b}"));
             }
         } else {
-            for p in 1..n {
+            for &p in positions.iter().filter(|p| **p >= 1) {
                 let l = (0..n)
                     .map(|i| if i < p { Landing::Whole } else { Landing::Lost })
                     .collect();
                 push(l, format!("prefix-{p}"));
             }
-            for d in 0..n {
+            for &d in &positions {
                 let l = (0..n)
                     .map(|i| if i == d { Landing::Lost } else { Landing::Whole })
                     .collect();
@@ -717,7 +739,7 @@ impl CrashCapture {
             }
         }
         if torn {
-            for t in 0..n {
+            for &t in &positions {
                 let units = self.unsynced[t].data.len().div_ceil(unit);
                 if units < 2 {
                     continue;
